@@ -196,6 +196,12 @@ func paramName(spec *FuncSpec, sig *types.Signature, i int) string {
 func (vc *VC) funcValueKey(v ssa.Value) (key, owner string, ownerT types.Type) {
 	switch x := v.(type) {
 	case *ssa.UnOp:
+		if fv, ok := x.X.(*ssa.FreeVar); ok {
+			return "funcfield:" + funcKey(fv.Parent()) + "." + fv.Name(), "", nil
+		}
+		if al, ok := x.X.(*ssa.Alloc); ok && al.Comment != "" {
+			return "funcfield:" + funcKey(al.Parent()) + "." + al.Comment, "", nil
+		}
 		if fa, ok := x.X.(*ssa.FieldAddr); ok {
 			S := derefType(fa.X.Type())
 			s, _ := isStruct(S)
@@ -498,6 +504,8 @@ func (vc *VC) execBuiltin(x *ssa.Call, b *ssa.Builtin, c *ssa.CallCommon, st *St
 		mt := c.Args[0].Type().Underlying().(*types.Map)
 		vc.mapDelete(st, mt, vc.val(c.Args[0]), vc.val(c.Args[1]))
 	case "print", "println":
+	case "close":
+		vc.noteTrusted("close(chan) is ignored (channels are outside the sequential model; closing twice would panic)")
 	case "ssa:wrapnilchk":
 		vc.setVal(x, vc.val(c.Args[0]))
 	default:
